@@ -9,7 +9,12 @@ Record input10 := mkIn10 {
   j_tbl : tbl; j_rows : list row; j_ops : list batch_op;
   j_cast : list (ty * val * val);           (* oracle: SQLite's CAST(v AS ty) stored in a column of type ty *)
   j_dflt : list (name * val);               (* oracle: what SQLite stores in an added column (its DEFAULT or NULL) *)
-  j_always : bool }.                        (* recreate='always' (true) or 'auto' (false) *)
+  j_always : bool;                          (* recreate='always' (true) or 'auto' (false) *)
+  j_partial : list (list key);              (* batch_alter_table(partial_reordering=[(..), ..]) *)
+  j_targs : list con;                       (* batch_alter_table(table_args=(<constraint>, ..)) *)
+  j_reflected : bool;                       (* the table is reflected (true) or given by copy_from (false) *)
+  j_uchecks : list con;                     (* the table's unnamed CHECK constraints (not part of j_tbl) *)
+  j_never : bool }.                         (* recreate='never' *)
 Inductive output10 :=
 | OutOk (d:ndesc) (rows:list row) (tmp_left:bool)      (* reflected table, SELECT * (a multiset), any _alembic_tmp_* table left *)
 | OutErr (e:berr).
@@ -36,14 +41,17 @@ Definition ckind_eqb (a b:ckind) : bool :=
   | _, _ => false
   end.
 Definition con_eqb (a b:con) : bool := name_eqb (k_name a) (k_name b) && ckind_eqb (k_kind a) (k_kind b) && names_eqb (k_cols a) (k_cols b).
-Definition index_eqb (a b:index) : bool := name_eqb (x_name a) (x_name b) && names_eqb (x_cols a) (x_cols b) && Bool.eqb (x_unique a) (x_unique b).
+Definition where_eqb (a b:option (N * list name)) : bool :=
+  match a, b with Some (t, m), Some (t', m') => N.eqb t t' && names_eqb m m' | None, None => true | _, _ => false end.
+Definition index_eqb (a b:index) : bool :=
+  name_eqb (x_name a) (x_name b) && names_eqb (x_cols a) (x_cols b) && Bool.eqb (x_unique a) (x_unique b) && where_eqb (x_where a) (x_where b).
 Definition subsetb {A} (eqb:A -> A -> bool) (a b:list A) : bool := forallb (fun x => existsb (eqb x) b) a.
 Definition seteqb {A} (eqb:A -> A -> bool) (a b:list A) : bool := subsetb eqb a b && subsetb eqb b a && Nat.eqb (length a) (length b).
 (* same columns in the same order with the same attributes, same PK, same named constraints and indexes (as sets) *)
 Definition desc_eqb (a b:ndesc) : bool :=
   list_eqb col_eqb (n_cols a) (n_cols b) && names_eqb (n_pk a) (n_pk b)
   && seteqb con_eqb (n_cons a) (n_cons b) && seteqb index_eqb (n_idx a) (n_idx b).
-Definition set_equiv {A} (a b:list A) : Prop := forall x, In x a <-> In x b.
+Definition set_equiv {A} (a b:list A) : Prop := (forall x, In x a <-> In x b) /\ length a = length b.
 Definition desc_equiv (a b:ndesc) : Prop :=
   n_cols a = n_cols b /\ n_pk a = n_pk b /\ set_equiv (n_cons a) (n_cons b) /\ set_equiv (n_idx a) (n_idx b).
 (* the same up to the mutual order of the columns ADDED by the batch that sit in the same gap: the pre-existing columns are in
@@ -76,22 +84,31 @@ Definition desc_equiv_w (added:list name) (a b:ndesc) : Prop :=
 Definition berr_eqb (a b:berr) : bool :=
   match a, b with
   | EKeyError, EKeyError | EValueError, EValueError | ECircular, ECircular | EDuplicateColumn, EDuplicateColumn
-  | EOperationalB, EOperationalB | ECommandB, ECommandB | EFuelB, EFuelB | EOtherB, EOtherB => true
+  | EOperationalB, EOperationalB | ECommandB, ECommandB | ENotImplementedB, ENotImplementedB | EFuelB, EFuelB | EOtherB, EOtherB => true
   | _, _ => false
   end.
 
 (* ------------------------------------------------------------------ the model's output *)
 Definition model10 (i:input10) : output10 :=
+  if j_never i then
+    (if never_command_error (j_ops i) then OutErr ECommandB
+     else match never_ops (j_ops i) (j_tbl i, map (fun p => (fst p, fst p)) (tb_cols (j_tbl i))) with
+          | BErr e => OutErr e
+          | BOk (T', orig) =>
+              let d := desc_of_tbl T' in let nd := mkDesc (n_cols d) (n_pk d) (n_cons d ++ j_uchecks i) (n_idx d) in
+              OutOk nd (copy_rows (cast_of i) (dflt_of i) (j_tbl i) nd (origin_map T' orig) (j_rows i)) false
+          end)
+  else
   if command_error (j_always i) [] (j_ops i) then OutErr ECommandB
   else if j_always i || requires_recreate (j_ops i) then
-    match batch sa_tsort (j_tbl i) (j_ops i) with
+    match batch_with sa_tsort (j_partial i) (j_targs i) (grab (j_reflected i) (j_uchecks i) (j_tbl i)) (j_ops i) with
     | BErr e => OutErr e
     | BOk (nd, cm) => OutOk nd (copy_rows (cast_of i) (dflt_of i) (j_tbl i) nd cm (j_rows i)) false
     end
   else
     match direct_ops (j_ops i) (j_tbl i) with
     | BErr e => OutErr e
-    | BOk T' => let nd := desc_of_tbl T' in
+    | BOk T' => let d := desc_of_tbl T' in let nd := mkDesc (n_cols d) (n_pk d) (n_cons d ++ j_uchecks i) (n_idx d) in
                 OutOk nd (copy_rows (cast_of i) (dflt_of i) (j_tbl i) nd (identity_map (j_tbl i)) (j_rows i)) false
     end.
 Definition corr_C10 (i:input10) (o:output10) : bool :=
@@ -126,7 +143,8 @@ Definition edit (o:batch_op) (T:tbl) : bres tbl :=
            end
   | ODropColumn k =>
       if negb (has_key k T) then BErr EKeyError
-      else if existsb (fun x => mem_name k (x_cols x)) (tb_idx T) then BErr EOperationalB     (* an index still needs it *)
+      else if existsb (fun x => mem_name k (x_cols x) || match x_where x with Some (_, ms) => mem_name k ms | None => false end) (tb_idx T)
+           then BErr EOperationalB     (* an index still needs it (as a column or in its predicate) *)
       else if existsb (fun c => negb (is_primary c) && mem_name k (k_cols c)) (tb_cons T) then BErr EOperationalB    (* a constraint still needs it *)
       else BOk (mkTbl (adel k (tb_cols T)) (remove_name k (tb_pk T)) (map (pk_drop_col k) (tb_cons T)) (tb_idx T))   (* it leaves the primary key *)
   | OAlterColumn k a =>
@@ -163,7 +181,15 @@ Definition describe (T:tbl) : ndesc :=
   let rn := cur_name (tb_cols T) in
   mkDesc (map snd (tb_cols T)) (map rn (tb_pk T))
          (map (fun c => mkCon (k_name c) (k_kind c) (map rn (k_cols c))) (filter con_visible (tb_cons T)))
-         (map (fun x => mkIndex (x_name x) (map rn (x_cols x)) (x_unique x)) (tb_idx T)).
+         (map (fun x => mkIndex (x_name x) (map rn (x_cols x)) (x_unique x) (x_where x)) (tb_idx T)).
+
+(* the description the SPECIFICATION promises: besides the current names of the constraint's own columns, a self-referential
+   foreign key (REFERENCES the table itself) still refers to the same COLUMNS of the table after a rename: its referred
+   columns follow renames exactly like its source columns (what SQLite's own ALTER TABLE RENAME COLUMN does, `never_op`) *)
+Definition self_fix (rn:key -> name) (c:con) : con :=
+  mkCon (k_name c) (match k_kind c with KFk rt rc => if name_eqb rt self_table then KFk rt (map rn rc) else KFk rt rc | kd => kd end) (k_cols c).
+Definition describe_s (T:tbl) : ndesc :=
+  let d := describe T in mkDesc (n_cols d) (n_pk d) (map (self_fix (cur_name (tb_cols T))) (n_cons d)) (n_idx d).
 
 (* ------------------------------------------------------------------ what the operations mention; where a column ends up *)
 Definition op_mentions (o:batch_op) : list name :=
@@ -227,6 +253,29 @@ Fixpoint side_ok_from (all ops:list batch_op) (nd:ndesc) : bool :=
   | _ :: r => side_ok_from all r nd
   end.
 
+(* partial_reordering: within every tuple the columns come out in the order given *)
+Fixpoint consec_ok (ops:list batch_op) (nd:ndesc) (t:list key) : bool :=
+  match t with
+  | a :: ((b :: _) as r) => before_b (n_cols nd) (final_name ops a a) (final_name ops b b) && consec_ok ops nd r
+  | _ => true
+  end.
+Definition partial_ok (ops:list batch_op) (P:list (list key)) (nd:ndesc) : bool := forallb (consec_ok ops nd) P.
+(* table_args: the constraints handed over are in the new table *)
+Definition targs_ok (A:list con) (nd:ndesc) : bool := forallb (fun c => existsb (con_eqb c) (n_cons nd)) A.
+Definition is_nil {A} (l:list A) : bool := match l with [] => true | _ => false end.
+(* with partial_reordering the column order is the caller's business: same columns, PK, constraints, indexes *)
+Definition desc_eqb_p (a b:ndesc) : bool :=
+  seteqb col_eqb (n_cols a) (n_cols b) && names_eqb (n_pk a) (n_pk b)
+  && seteqb con_eqb (n_cons a) (n_cons b) && seteqb index_eqb (n_idx a) (n_idx b).
+Definition desc_equiv_p (a b:ndesc) : Prop :=
+  set_equiv (n_cols a) (n_cols b) /\ n_pk a = n_pk b /\ set_equiv (n_cons a) (n_cons b) /\ set_equiv (n_idx a) (n_idx b).
+Definition with_targs (A:list con) (d:ndesc) : ndesc := mkDesc (n_cols d) (n_pk d) (n_cons d ++ A) (n_idx d).
+
+(* unnamed CHECK constraints reach the new table only when the table was given by copy_from *)
+(* (when the batch does not recreate the table at all — recreate='auto' and only ALTER-able operations — nothing is lost) *)
+Definition carried (i:input10) : list con :=
+  if j_reflected i && negb (j_never i) && (j_always i || requires_recreate (j_ops i)) then [] else j_uchecks i.
+
 Section Holds.
   Variable i : input10.
   Let T := j_tbl i.
@@ -250,13 +299,15 @@ Section Holds.
   Definition untouched_names (l:list name) : bool := forallb untouched_name l.
   Definition untouched_ok (nd:ndesc) : bool :=
     (* untouched columns: same definition, same relative order *)
-    list_eqb col_eqb (filter (fun c => untouched_name (c_name c)) (map snd (tb_cols T)))
-                     (filter (fun c => untouched_name (c_name c) && mem_name (c_name c) (names_of T)) (n_cols nd))
+    (if is_nil (j_partial i)
+     then list_eqb col_eqb (filter (fun c => untouched_name (c_name c)) (map snd (tb_cols T)))
+                           (filter (fun c => untouched_name (c_name c) && mem_name (c_name c) (names_of T)) (n_cols nd))
+     else forallb (fun c => existsb (col_eqb c) (n_cols nd)) (filter (fun c => untouched_name (c_name c)) (map snd (tb_cols T))))
     && (if untouched_names (tb_pk T) then names_eqb (n_pk nd) (tb_pk T) else true)
     && forallb (fun c => if untouched_name (k_name c) && untouched_names (k_cols c) then existsb (con_eqb c) (n_cons nd) else true) (tb_cons T)
     && forallb (fun x => if untouched_name (x_name x) && untouched_names (x_cols x) then existsb (index_eqb x) (n_idx nd) else true) (tb_idx T).
 
-  Definition C10_holds (o:output10) : Prop :=
+  Definition C10_holds_r (o:output10) : Prop :=
     match o with
     | OutErr _ => True                                   (* not accepted by Alembic: raised loudly *)
     | OutOk nd rows tmp_left =>
@@ -264,18 +315,30 @@ Section Holds.
         length rows = length (j_rows i) /\ survivors_present nd = true /\ mseq rows (expected_rows nd) /\
         untouched_ok nd = true /\ requested_ok_from ops ops nd = true /\
         side_ok_from ops ops nd = true /\
-        (forall T', edit_all ops T = BOk T' -> desc_equiv_w (added_names ops) nd (describe T'))
+        partial_ok ops (j_partial i) nd = true /\ targs_ok (j_targs i) nd = true /\
+        (forall T', edit_all ops T = BOk T' ->
+           if is_nil (j_partial i) then desc_equiv_w (added_names ops) nd (with_targs (carried i ++ j_targs i) (describe_s T'))
+           else desc_equiv_p nd (with_targs (carried i ++ j_targs i) (describe_s T')))
     end.
 
-  Definition check_C10 (o:output10) : bool :=
+  Definition check_C10_r (o:output10) : bool :=
     match o with
     | OutErr _ => true
     | OutOk nd rows tmp_left =>
         negb tmp_left && Nat.eqb (length rows) (length (j_rows i)) && survivors_present nd && mseqb rows (expected_rows nd)
         && untouched_ok nd && requested_ok_from ops ops nd
         && side_ok_from ops ops nd
-        && match edit_all ops T with BOk T' => desc_eqb_w (added_names ops) nd (describe T') | BErr _ => true end
+        && partial_ok ops (j_partial i) nd && targs_ok (j_targs i) nd
+        && match edit_all ops T with
+           | BOk T' => if is_nil (j_partial i) then desc_eqb_w (added_names ops) nd (with_targs (carried i ++ j_targs i) (describe_s T'))
+                       else desc_eqb_p nd (with_targs (carried i ++ j_targs i) (describe_s T'))
+           | BErr _ => true end
     end.
+  (* the property is about alterations that recreate the table: recreate='never' never does (SQLite's own ALTER TABLE does
+     the work, e.g. RENAME COLUMN also rewrites the foreign keys that reference the column) — compared exactly with the
+     model, not judged by this property *)
+  Definition C10_holds (o:output10) : Prop := if j_never i then True else C10_holds_r o.
+  Definition check_C10 (o:output10) : bool := if j_never i then true else check_C10_r o.
 End Holds.
 
 (* ------------------------------------------------------------------ the proved class *)
@@ -309,5 +372,72 @@ Definition in_class2 (o:batch_op) : bool :=
 Definition wf_tbl2 (T:tbl) : bool :=
   wf_tbl T && negb (has_dup (akeys (tb_cols T))) && forallb (fun p => name_eqb (c_name (snd p)) (fst p)) (tb_cols T)
   && forallb con_visible (tb_cons T).
+
+(* ---- add_column inside the class.
+   edit_app: the same specification except that an added column is APPENDED whatever insert_before / insert_after say.  The
+   bookkeeping of ApplyBatchImpl refines it exactly (self.columns is appended to); the column ORDER is then a matter between
+   `edit` (immediately before / after the named column) and SQLAlchemy's topological sort over add_col_ordering. *)
+Definition edit_app (o:batch_op) (T:tbl) : bres tbl :=
+  match o with
+  | OAddColumn k c _ _ =>
+      if has_key k T || mem_name (c_name c) (names_of T) || negb (name_eqb k (c_name c)) then BErr EValueError
+      else BOk (mkTbl (tb_cols T ++ [(k, c)]) (tb_pk T) (tb_cons T) (tb_idx T))
+  | _ => edit o T
+  end.
+Fixpoint edit_app_all (ops:list batch_op) (T:tbl) : bres tbl :=
+  match ops with
+  | [] => BOk T
+  | o :: r => match edit_app o T with BOk T' => edit_app_all r T' | BErr e => BErr e end
+  end.
+Definition in_class_a (o:batch_op) : bool :=
+  match o with
+  | OAddColumn _ _ (Some _) (Some _) => false          (* both insert_before and insert_after: `edit` has no single reading *)
+  | OAddConstraint c => negb (is_primary c)
+  | _ => true
+  end.
+(* add_column with the default placement (appended): the class of the main theorem *)
+Definition in_class_p (o:batch_op) : bool :=
+  in_class_a o && match o with OAddColumn _ _ None None => true | OAddColumn _ _ _ _ => false | _ => true end.
+Fixpoint added_keys (ops:list batch_op) : list key :=
+  match ops with [] => [] | OAddColumn k _ _ _ :: r => k :: added_keys r | _ :: r => added_keys r end.
+(* an added column is a new column: its key is none of the table's and no other added column's *)
+Definition fresh_adds (T:tbl) (ops:list batch_op) : bool := negb (has_dup (akeys (tb_cols T) ++ added_keys ops)).
+(* placement, evaluated along the model's own run:
+   - drop_column of a column that add_col_ordering mentions = the registered deviation
+     C10-added-column-misplaced-when-neighbour-dropped-later: outside;
+   - insert_before / insert_after naming a column that was itself added by the batch: outside (not proved; compared and
+     checked by the decider like everything else) *)
+Definition order_keys (s:bstate) : list key := flat_map (fun p => [fst p; snd p]) (b_order s).
+Fixpoint placement_ok (ops:list batch_op) (s:bstate) : bool :=
+  match ops with
+  | [] => true
+  | o :: r =>
+      (match o with
+       | OAddColumn _ _ (Some b) None => mem_name b (b_existing s)
+       | OAddColumn _ _ None (Some a) => mem_name a (b_existing s)
+       | OAddColumn _ _ (Some _) (Some _) => false
+       | ODropColumn k => negb (mem_name k (order_keys s))
+       | _ => true
+       end) && match apply_batch_op o s with BOk s' => placement_ok r s' | BErr _ => true end
+  end.
+(* no rename of a column that a self-referential foreign key (of the table, or added by the batch) refers to: its complement
+   is the registered deviation C10-selfref-fk-target-not-renamed *)
+Definition self_targets_con (c:con) : list name :=
+  match k_kind c with KFk rt rc => if name_eqb rt self_table then rc else [] | _ => [] end.
+Definition self_targets (T:tbl) (ops:list batch_op) : list name :=
+  flat_map self_targets_con (tb_cons T) ++ flat_map (fun o => match o with OAddConstraint c => self_targets_con c | _ => [] end) ops.
+Definition okop (tg:list name) (o:batch_op) : bool :=
+  match o with
+  | OAlterColumn k a => match al_name a with Some _ => negb (mem_name k tg) | None => true end
+  | OAddConstraint c => forallb (fun r => mem_name r tg) (self_targets_con c)
+  | _ => true
+  end.
+Definition selfref_ok (T:tbl) (ops:list batch_op) : bool := forallb (okop (self_targets T ops)) ops.
+Definition inclass_C10_noadd (i:input10) : bool :=
+  j_always i && negb (j_never i) && is_nil (j_partial i) && is_nil (j_targs i) && is_nil (j_uchecks i) && wf_tbl2 (j_tbl i) && forallb in_class2 (j_ops i) && types_once [] (j_ops i) && specok i.
+Definition inclass_C10_plain (i:input10) : bool :=
+  j_always i && negb (j_never i) && is_nil (j_partial i) && is_nil (j_targs i) && is_nil (j_uchecks i) && wf_tbl2 (j_tbl i) && forallb in_class_p (j_ops i) && types_once [] (j_ops i)
+  && fresh_adds (j_tbl i) (j_ops i) && placement_ok (j_ops i) (init (j_tbl i)) && specok i.
 Definition inclass_C10 (i:input10) : bool :=
-  j_always i && wf_tbl2 (j_tbl i) && forallb in_class2 (j_ops i) && types_once [] (j_ops i) && specok i.
+  j_always i && negb (j_never i) && is_nil (j_partial i) && is_nil (j_targs i) && is_nil (j_uchecks i) && wf_tbl2 (j_tbl i) && forallb in_class_a (j_ops i) && types_once [] (j_ops i)
+  && fresh_adds (j_tbl i) (j_ops i) && placement_ok (j_ops i) (init (j_tbl i)) && selfref_ok (j_tbl i) (j_ops i) && specok i.
